@@ -62,6 +62,7 @@ type srvConn struct {
 	loose     bool            // real time has passed (sleep): timers add loop iterations the counters cannot predict
 	holding   map[uint32]bool // handlers that have built part of their response and are still running
 	ownerViol []string        // something reached into a response its handler still owns
+	hblock    map[uint32][]byte // fragments of the header block the server is writing on a stream, until END_HEADERS
 }
 
 // earlyStream is a response body a handler installs before it has finished. Until the handler returns the response is
@@ -387,8 +388,26 @@ func (s *srvConn) fmtFrame(fr rawFrame) string {
 			}
 		}
 		return fmt.Sprintf("D(%d,es=%d,len=%d,%s)", fr.stream, fr.flags&1, len(p), digest(d))
-	case 1:
-		frag := p
+	case 1, 9:
+		// a response header block may come as HEADERS + CONTINUATION... (the write loop cuts it at 16384 octets): the
+		// fragments are kept per stream and decoded when END_HEADERS arrives; the decoded field list is printed on the
+		// frame that carries END_HEADERS, the frames before it print no fields
+		eh := (fr.flags >> 2) & 1
+		if s.hblock == nil {
+			s.hblock = map[uint32][]byte{}
+		}
+		if fr.typ == 1 {
+			delete(s.hblock, fr.stream)
+		}
+		frag := append(s.hblock[fr.stream], p...)
+		if eh == 0 {
+			s.hblock[fr.stream] = frag
+			if fr.typ == 1 {
+				return fmt.Sprintf("H(%d,es=%d,eh=0,len=%d,-)", fr.stream, fr.flags&1, len(p))
+			}
+			return fmt.Sprintf("C(%d,eh=0,len=%d,-)", fr.stream, len(p))
+		}
+		delete(s.hblock, fr.stream)
 		// up to two leading dynamic table size updates (RFC 7541 4.2: the smallest size since the last block,
 		// then the final one) go to x/net's decoder one by one: it refuses a second one in the same block
 		// unless its table is empty (see cliSizeUpdateLen in cli.go)
@@ -411,7 +430,10 @@ func (s *srvConn) fmtFrame(fr rawFrame) string {
 		if err != nil {
 			e = ",hpack-err"
 		}
-		return fmt.Sprintf("H(%d,es=%d,eh=%d,len=%d,%s%s)", fr.stream, fr.flags&1, (fr.flags>>2)&1, len(p), fmtKV(kvs), e)
+		if fr.typ == 9 {
+			return fmt.Sprintf("C(%d,eh=1,len=%d,%s%s)", fr.stream, len(p), fmtKV(kvs), e)
+		}
+		return fmt.Sprintf("H(%d,es=%d,eh=%d,len=%d,%s%s)", fr.stream, fr.flags&1, eh, len(p), fmtKV(kvs), e)
 	case 3:
 		if len(p) == 4 {
 			return fmt.Sprintf("RST(%d,%d)", fr.stream, uint32(p[0])<<24|uint32(p[1])<<16|uint32(p[2])<<8|uint32(p[3]))
@@ -441,6 +463,21 @@ func (s *srvConn) fmtFrame(fr rawFrame) string {
 	return fmt.Sprintf("F(t=%d,fl=%d,s=%d,len=%d,%x)", fr.typ, fr.flags, fr.stream, len(p), p)
 }
 
+// frameUnits counts what the server QUEUED for the frames it wrote: a header block is queued as one frame and
+// written as HEADERS + CONTINUATION..., so CONTINUATION frames do not count; `open` = the last header block seen
+// has not reached its END_HEADERS yet (the write loop is in the middle of it).
+func frameUnits(frames []rawFrame) (n int64, open bool) {
+	for _, fr := range frames {
+		if fr.typ != 9 {
+			n++
+		}
+		if fr.typ == 1 || fr.typ == 9 {
+			open = fr.flags&4 == 0
+		}
+	}
+	return n, open
+}
+
 func (s *srvConn) enteredN() int64 { s.mu.Lock(); defer s.mu.Unlock(); return s.entered }
 
 func (s *srvConn) isServed() bool {
@@ -461,7 +498,8 @@ func (s *srvConn) quiesce() string {
 		served := s.isServed()
 		s.outBuf = append(s.outBuf, s.mc.out.take()...)
 		frames, rest := parseFrames(s.outBuf)
-		n := int64(len(frames))
+		n, open := frameUnits(frames)
+		nf := len(frames)
 		loopGone := http2.VerifLoopExitN.Load() > 0
 		// ServeConn can return a moment before the stream loop has drained what was forwarded to it: the
 		// step is over only when the loop has gone too (it may still start a handler until then)
@@ -469,21 +507,22 @@ func (s *srvConn) quiesce() string {
 		if !ok && !loopGone && s.loose {
 			// the loop has come round at least once for everything handed to it since the op began, and nothing moves
 			a, b, c := http2.VerifLoopTopN.Load(), http2.VerifQueuedN.Load(), http2.VerifForwardedN.Load()
-			ok = s.mc.in.idle() && a-s.lt0 >= c+s.dones-s.fw0 && s.enteredN() == http2.VerifDispatchedN.Load() && len(rest) == 0
+			ok = s.mc.in.idle() && a-s.lt0 >= c+s.dones-s.fw0 && s.enteredN() == http2.VerifDispatchedN.Load() && len(rest) == 0 && !open
 			if ok {
 				time.Sleep(3 * time.Millisecond)
 				ok = a == http2.VerifLoopTopN.Load() && b == http2.VerifQueuedN.Load() && c == http2.VerifForwardedN.Load() && s.mc.in.idle()
 				if ok {
 					s.outBuf = append(s.outBuf, s.mc.out.take()...)
 					frames, rest = parseFrames(s.outBuf)
-					ok = len(rest) == 0
+					_, open = frameUnits(frames)
+					ok = len(rest) == 0 && !open
 				}
 			}
 		} else if !ok && !loopGone {
 			ok = s.mc.in.idle() &&
 				http2.VerifLoopTopN.Load() == 1+http2.VerifForwardedN.Load()+s.dones &&
 				s.enteredN() == http2.VerifDispatchedN.Load() &&
-				s.frames+n == 2+http2.VerifQueuedN.Load() && len(rest) == 0
+				s.frames+n == 2+http2.VerifQueuedN.Load() && len(rest) == 0 && !open
 			if ok { // re-check after a pause: the counters must be stable
 				a, b, c := http2.VerifLoopTopN.Load(), http2.VerifQueuedN.Load(), http2.VerifForwardedN.Load()
 				time.Sleep(20 * time.Microsecond)
@@ -491,7 +530,7 @@ func (s *srvConn) quiesce() string {
 				if ok {
 					s.outBuf = append(s.outBuf, s.mc.out.take()...)
 					frames, rest = parseFrames(s.outBuf)
-					ok = int64(len(frames)) == n && len(rest) == 0
+					ok = len(frames) == nf && len(rest) == 0
 				}
 			}
 		}
@@ -512,7 +551,8 @@ func (s *srvConn) quiesce() string {
 			for _, fr := range frames {
 				out = append(out, s.fmtFrame(fr))
 			}
-			s.frames += int64(len(frames))
+			units, _ := frameUnits(frames)
+			s.frames += units
 			s.outBuf = rest
 			s.mu.Lock()
 			d := append([]string(nil), s.dispatch...)
@@ -595,9 +635,25 @@ func (s *srvConn) settle() string {
 	}
 	frames, rest := parseFrames(s.outBuf)
 	s.outBuf = rest
-	s.frames += int64(len(frames))
+	units, _ := frameUnits(frames)
+	s.frames += units
 	counts := map[string]int{}
+	// in wire order: frames seen between a HEADERS frame without END_HEADERS and the end of its block (RFC 7540 4.3)
+	hbi, blocks := 0, 0
+	var openBlk uint32
 	for _, fr := range frames {
+		if openBlk != 0 && !(fr.typ == 9 && fr.stream == openBlk) {
+			hbi++
+		}
+		if fr.typ == 1 || (fr.typ == 9 && fr.stream == openBlk) {
+			openBlk = 0
+			if fr.flags&4 == 0 {
+				openBlk = fr.stream
+				if fr.typ == 1 {
+					blocks++
+				}
+			}
+		}
 		item := s.fmtFrame(fr)
 		counts[item[:strings.IndexAny(item+"(", "(")]]++
 	}
@@ -614,7 +670,7 @@ func (s *srvConn) settle() string {
 	}
 	s.logLines = nil
 	s.logMu.Unlock()
-	return fmt.Sprintf("settled frames=%v dispatches=%d panicked=%d served=%v", counts, nd, panicked, s.isServed())
+	return fmt.Sprintf("settled frames=%v dispatches=%d panicked=%d served=%v hbi=%d cutblocks=%d", counts, nd, panicked, s.isServed(), hbi, blocks)
 }
 
 func (s *srvConn) gauges() string {
